@@ -113,6 +113,9 @@ def has_quantifier(f, _seen=None):
     return False
 
 
+_TRUTHY_OBJ = z3.Function("object_is_truthy", Z.Val, z3.BoolSort())
+
+
 class Obligation:
     def __init__(self, name, pc, goal, path, kind="post", meta=None):
         self.name, self.pc, self.goal, self.path, self.kind = name, list(pc), goal, path, kind
@@ -658,8 +661,13 @@ class Ctx:
                 raise Unsupported("truthiness of %s with __bool__/__len__" % cls.key)
             if isinstance(v.ty, TSeq):
                 return z3.Select(self.field_array("$len"), self.ref_id(v)) > 0
-            if isinstance(v.ty, (TAbs, TFn, TExc)):
+            if isinstance(v.ty, TExc) or getattr(v.ty, "always_truthy", False):
                 return True
+            if isinstance(v.ty, (TAbs, TFn)):
+                # an object known only through an interface (a user's pool, service, rule, factory ...): whether it is truthy is ITS business
+                # (__bool__ / __len__) - an unknown fact about the object, so that `if x:` where `if x is not None:` is meant shows
+                self.ghost["nondet"] = True
+                return _TRUTHY_OBJ(v.t)
             return Z.truthy(v.t)
         if v is None:
             return False
